@@ -70,7 +70,11 @@ def qj(v):
         return [0, 0]
 
 
-def snapv(v, D=SNAP_D):
+MAXDEN_SCALAR = 64        # exact clauses are evaluated by TLC in 32-bit rationals: wider denominators are
+MAXDEN_VECTOR = 20        # logged as "not on the declared lattice" (relational clauses still apply)
+
+
+def snapv(v, D=SNAP_D, maxden=MAXDEN_SCALAR):
     """float -> JSON Q ; [0,0] when off the lattice, [1,0] for +inf"""
     v = float(v)
     if math.isnan(v):
@@ -78,13 +82,13 @@ def snapv(v, D=SNAP_D):
     if math.isinf(v):
         return [1, 0] if v > 0 else [-1, 0]
     s = exact.snap(v, D, tol=SNAP_TOL)
-    if s == exact.OFF:
+    if s == exact.OFF or s.denominator > maxden or abs(s) > 4096:
         return [0, 0]
     return qj(s)
 
 
 def snapvec(arr, D=SNAP_D):
-    return [snapv(v, D) for v in np.asarray(arr, dtype=float).ravel()]
+    return [snapv(v, D, MAXDEN_VECTOR) for v in np.asarray(arr, dtype=float).ravel()]
 
 
 def matches(v, q, rel=1e-9):
@@ -95,17 +99,30 @@ def matches(v, q, rel=1e-9):
     return math.isfinite(v) and abs(v - float(e)) <= rel * max(1.0, abs(v))
 
 
-def value_near(func, B, vals, k=8):
+def value_near(func, B, vals, anchors=(), k=32):
     """func at the point, or - when that is +inf - at a point within 1e-9 (relative) of it where func is finite.
-    An indicator value that flips within rounding distance of the boundary of its set is not a verdict."""
+    An indicator value that flips within rounding distance of the boundary of its set is not a verdict.
+    Candidates: a 1e-9 step towards every anchor (points where func is known to be finite: by convexity of the
+    domain such a step from a boundary point leads inside), towards 0, and a few random 1e-9 perturbations."""
     v = float(func(B.el(vals)))
     if math.isfinite(v):
         return v, False
     arr = np.array([float(t) for t in vals])
     scale = 1e-9 * max(1.0, float(np.max(np.abs(arr))) if arr.size else 1.0)
+    cands = []
+    for a in list(anchors) + [np.zeros_like(arr)]:
+        d = np.array([float(t) for t in a]) - arr
+        nd = float(np.linalg.norm(d))
+        if nd > 0:
+            cands.append(arr + scale * d / nd)
     prn = np.random.RandomState(4321)
     for _ in range(k):
-        w = float(func(B.el(arr + scale * prn.uniform(-1, 1, size=arr.shape))))
+        cands.append(arr + scale * prn.uniform(-1, 1, size=arr.shape))
+    for c in cands:
+        try:
+            w = float(func(B.el(c)))
+        except Exception:
+            continue
         if math.isfinite(w):
             return w, True
     return v, False
@@ -395,7 +412,7 @@ def run_jobs_allow(ctx, jobs, allow=(), max_workers=14):
     """Like run_jobs, but the named jobs may end with a counter-example (handled by the caller).
     Heavy jobs first, so that the pool stays busy."""
     def go(j):
-        return j[0], run_tlc(j[1], j[2], ctx.work, env=j[3], workers=j[4], timeout=3000)
+        return j[0], run_tlc(j[1], j[2], ctx.work, env=j[3], workers=j[4], timeout=3000, heap=TLC_HEAP)
     with ThreadPoolExecutor(max_workers=max_workers) as ex:
         results = list(ex.map(go, jobs))
     for name, res in results:
@@ -440,6 +457,66 @@ def read_export(path):
         return [json.loads(line) for line in fh if line.strip()]
 
 
+TLC_HEAP = '1500m'        # the models are small; many JVMs run side by side
+
+
+class EventSink(object):
+    """Streams recorded events (and the detail needed to report a rejected one) to chunk files on disk, so that
+    a thorough run does not hold hundreds of thousands of events in memory; validates the chunks with TLC."""
+
+    def __init__(self, ctx, tag, chunk=1500):
+        self.ctx, self.tag, self.chunk = ctx, tag, chunk
+        self.n = 0
+        self.files = []
+        self._ev = self._det = None
+        self.kinds = {}
+
+    def add(self, ev, det):
+        if self.n % self.chunk == 0:
+            self._close()
+            p = os.path.join(self.ctx.work, 'trace_%s_%d.ndjson' % (self.tag, self.n // self.chunk))
+            self.files.append(p)
+            self._ev = open(p, 'w')
+            self._det = open(p + '.detail', 'w')
+        ev = dict((k, v) for k, v in ev.items() if k != 'tag')
+        ev['id'] = self.n
+        self._ev.write(json.dumps(ev) + '\n')
+        self._det.write(json.dumps(det, default=str) + '\n')
+        self.kinds[ev['k']] = self.kinds.get(ev['k'], 0) + 1
+        self.n += 1
+
+    def _close(self):
+        if self._ev:
+            self._ev.close()
+            self._det.close()
+            self._ev = self._det = None
+
+    def get(self, eid):
+        p = self.files[eid // self.chunk]
+        k = eid % self.chunk
+        with open(p) as a, open(p + '.detail') as b:
+            for i, (la, lb) in enumerate(zip(a, b)):
+                if i == k:
+                    return json.loads(la), json.loads(lb)
+        raise KeyError(eid)
+
+    def validate(self, max_workers=12):
+        self._close()
+        ctx = self.ctx
+
+        def val(p):
+            return p, run_tlc('Trace_FuncMachine.tla', 'Trace_FuncMachine.cfg', ctx.work,
+                              env={'TRACE_FILE': p}, workers=1, timeout=3000, heap=TLC_HEAP)
+        with ThreadPoolExecutor(max_workers=max_workers) as ex:
+            vres = list(ex.map(val, self.files))
+        fails = {}
+        for p, res in vres:
+            ctx.add_tlc('trace-' + os.path.basename(p), res)
+            for _line, eid, clauses_text in parse_fails(res.output):
+                fails[eid] = re.findall(r'"\s*([^"]+?)\s*"', clauses_text)
+        return fails
+
+
 # ----------------------------------------------------------------------------- trace validation
 def validate_events(ctx, events, tag, chunk=1500, max_workers=12):
     """events: list of dicts (already carrying 'id' = index).  Returns {event id: [clauses]} of rejected events."""
@@ -453,7 +530,7 @@ def validate_events(ctx, events, tag, chunk=1500, max_workers=12):
 
     def val(p):
         return p, run_tlc('Trace_FuncMachine.tla', 'Trace_FuncMachine.cfg', ctx.work,
-                          env={'TRACE_FILE': p}, workers=1, timeout=3000)
+                          env={'TRACE_FILE': p}, workers=1, timeout=3000, heap=TLC_HEAP)
     with ThreadPoolExecutor(max_workers=max_workers) as ex:
         vres = list(ex.map(val, files))
     fails = {}
